@@ -631,7 +631,7 @@ func genCase(r *rand.Rand) (Case, chooser) {
 	}
 	// a share of cases runs an ill-formed script (a labelled defect of the C12 engine): errors
 	// must be as repeatable and as private to their run as results are
-	if r.IntN(8) == 0 {
+	if r.IntN(6) == 0 {
 		pi := gen.PI{Prog: c.Prog, In: gen.Inputs{Vars: copyVars(g.In.Vars), Balances: c.Ledger.Balances, Meta: c.Ledger.Meta}}
 		before := canonVars(pi.In.Vars)
 		if _, ok := c12.ApplyDefect(r, &pi, false); ok && canonVars(pi.In.Vars) == before {
